@@ -34,6 +34,7 @@ import (
 	ecrypto "github.com/dappledger/AnnChain/eth/crypto"
 	"github.com/dappledger/AnnChain/eth/rlp"
 	gtypes "github.com/dappledger/AnnChain/gemmill/types"
+	"github.com/dappledger/AnnChain/gemmill/verifhook"
 
 	"verifharness/chainutil"
 	"verifharness/mbt"
@@ -370,6 +371,7 @@ type runner struct {
 	last   map[string][]byte // last raw transaction per account
 	base   int64 // height of the replicas when the behaviour starts (replicas are reused across behaviours)
 	pair   *pair
+	raceAt int  // > 0: the next block execution has a query parked at the precompile inside transaction raceAt's window
 	dirty  bool // the replicas must not be reused after this behaviour
 	suffix string
 }
@@ -399,6 +401,23 @@ func newPair(base string, seq int, nodes []*chainutil.Key, powers []int64, nrep 
 		p.reps[id] = r
 	}
 	return p, nil
+}
+
+func (p *pair) warmup(w *world) error {
+	st := p.reps[1].kit.State()
+	b, parts := chainutil.Proposal(st, []gtypes.Tx{}, []gtypes.Tx{}, nil, nil, p.reps[1].kit.Conf.GetInt("block_part_size"))
+	seen, err := chainutil.Commit(chainutil.ChainID, st.Validators, w.ring, b.Height, 0, gtypes.BlockID{Hash: b.Hash(), PartsHeader: parts.Header()}, nil)
+	if err != nil {
+		return err
+	}
+	for _, r := range p.reps {
+		r.bind()
+		if err := r.kit.Apply(b, parts, seen, 0); err != nil {
+			return err
+		}
+	}
+	p.lastSeen = seen
+	return nil
 }
 
 func (p *pair) close() {
@@ -504,8 +523,50 @@ func (rn *runner) exec(si int, st mbt.Step, rid int, wantOut string) bool {
 	valsBefore := stt.Validators.Copy()
 	r.calls = nil
 	r.bind()
+	// ExecQ: while transaction raceAt sits between run()'s SetState/SetCaller and AdminOP.Run's reads of the
+	// process-wide precompile object (Gate at the entry of Run), another goroutine serves a read-only contract
+	// query carrying the same transaction bytes on this replica, to completion.
+	racing := (*txPlan)(nil)
+	if rn.raceAt > 0 && rn.raceAt <= len(bb.plans) && bb.plans[rn.raceAt-1].route != "resend" {
+		racing = bb.plans[rn.raceAt-1]
+		target, hits, served := 0, 0, false
+		for _, pl := range bb.plans[:rn.raceAt] {
+			if pl.route != "resend" {
+				target++
+			}
+		}
+		verifhook.GateFn = func(site string) {
+			if site != "vm.AdminOP.Run" {
+				return
+			}
+			hits++
+			if hits != target || served {
+				return
+			}
+			served = true
+			done := make(chan struct{})
+			go func() {
+				defer close(done)
+				mbt.Catch(func() { r.app.Query(append([]byte{0}, racing.raw...)) }) // QueryType_Contract
+			}()
+			select {
+			case <-done:
+				rn.rep.Count("race:query-served-in-window")
+			case <-time.After(20 * time.Second):
+				rn.rep.Count("race:query-blocked")
+			}
+		}
+		defer func() {
+			verifhook.GateFn = nil
+			if !served {
+				rn.rep.Count("race:window-not-reached")
+			}
+		}()
+	}
+	rn.raceAt = 0
 	var aerr error
 	p, stack := mbt.Catch(func() { aerr = r.kit.Apply(bb.block, bb.parts, bb.seen, 0) })
+	verifhook.GateFn = nil
 	rn.rep.Checks++
 	if p != nil {
 		rn.fail(si, st, "panic", true, "ExecBlock-panic", fmt.Sprintf("replica %d block %d: %v\n%s", rid, k+1, p, stack), nil, nil)
@@ -559,6 +620,10 @@ func (rn *runner) exec(si int, st mbt.Step, rid int, wantOut string) bool {
 		results = append(results, obs)
 		rn.rep.Checks++
 		rn.rep.Count("tx:" + obs)
+		if obs != pl.want && pl == racing {
+			rn.fail(pl.step, st, "property", true, "OutcomeFromBlockAlone:"+pl.want+":"+strings.SplitN(obs, ":", 2)[0],
+				fmt.Sprintf("replica %d block %d %s: the outcome of the block's request changed because a read-only query was served while it executed", rid, k+1, pl.label), pl.want, obs)
+		}
 		if obs != pl.want {
 			prop := accepting(obs) || accepting(pl.want) || obs == "noop" || pl.want == "noop" || strings.HasPrefix(obs, "err:") || obs == "silent-success" || obs == "invalidTx" || pl.want == "invalidTx"
 			rn.fail(pl.step, st, "mismatch", prop, "Tx-result:"+pl.want+":"+strings.SplitN(obs, ":", 2)[0], fmt.Sprintf("replica %d block %d %s: request outcome differs", rid, k+1, pl.label), pl.want, obs)
@@ -684,6 +749,13 @@ func runTrace(rep *mbt.Report, ti int, tr mbt.Trace, base string) {
 		}
 		livePair = p
 		rep.Count("replica_sets_created")
+		// one empty block, so that contract queries have a header to run on whatever the behaviour's first step is
+		if err := p.warmup(w); err != nil {
+			rep.Fail(mbt.Failure{Trace: ti, TraceID: tr.ID, Kind: "error", Detail: "warm-up block: " + err.Error()})
+			p.close()
+			livePair = nil
+			return
+		}
 	}
 	rn := &runner{rep: rep, ti: ti, tr: tr, w: w, reps: livePair.reps, pair: livePair, sent: map[string]uint64{}, last: map[string][]byte{}}
 	nfail := rep.Counters["failures"]
@@ -752,6 +824,13 @@ func runTrace(rep *mbt.Report, ti int, tr mbt.Trace, base string) {
 		case "Exec":
 			rid := mbt.Int(st.Args[0])
 			if !rn.exec(si, st, rid, mbt.Str(st.Args[1])) {
+				return
+			}
+			rn.compareRep(si, st, rid)
+		case "ExecQ":
+			rid := mbt.Int(st.Args[0])
+			rn.raceAt = mbt.Int(st.Args[1])
+			if !rn.exec(si, st, rid, mbt.Str(st.Args[2])) {
 				return
 			}
 			rn.compareRep(si, st, rid)
